@@ -32,6 +32,8 @@ struct Known {
     align: u128,
     is_struct: bool,
     has_vftable: bool,
+    /// the lines of the type's vftable block (own or inherited): a derived type may repeat them and add more
+    vft_decl: Option<String>,
 }
 
 const MODULE_SETS: &[&[&str]] = &[
@@ -164,7 +166,7 @@ pub fn program(seed: u64, index: u64, ptr: usize) -> Vec<(&'static str, String)>
                 out.push_str(&format!("    V{v}{val},\n"));
             }
             out.push_str("}\n");
-            known.push(Known { module: m, name: name.clone(), size, align: size, is_struct: false, has_vftable: false });
+            known.push(Known { module: m, name: name.clone(), size, align: size, is_struct: false, has_vftable: false, vft_decl: None });
         } else {
             // ---- struct
             let packed = r.chance(1, 6);
@@ -173,6 +175,8 @@ pub fn program(seed: u64, index: u64, ptr: usize) -> Vec<(&'static str, String)>
             let mut max_align: u128 = 1;
             let own_vftable = r.chance(1, 3);
             let mut first_base_has_vftable = false;
+            let mut first_base_vft: Option<String> = None;
+            let mut my_vft: Option<String> = None;
             let mut has_vft = false;
             let mut vfuncs: Vec<String> = vec![];
             let mut base_vfuncs: Option<String> = None;
@@ -184,7 +188,7 @@ pub fn program(seed: u64, index: u64, ptr: usize) -> Vec<(&'static str, String)>
                 if !bases.is_empty() && r.chance(1, 3) && nbases < 2 {
                     let k = r.pick(&bases).clone();
                     // a second base with a vftable is fine; the first base decides sharing
-                    if nbases == 0 { first_base_has_vftable = k.has_vftable; }
+                    if nbases == 0 { first_base_has_vftable = k.has_vftable; first_base_vft = k.vft_decl.clone(); }
                     // the derived type's own block would have to repeat the base slots: keep it simple, no own block then
                     let t = refer(&k, m, &mut uses[m], mods, &mut r);
                     specs.push((format!("    #[base]\n    {}b{f}: {t},\n", vis(&mut r)), k.size, k.align, true));
@@ -219,12 +223,25 @@ pub fn program(seed: u64, index: u64, ptr: usize) -> Vec<(&'static str, String)>
                     vfuncs.push(format!("vf{v}"));
                     slot += 1;
                 }
+                my_vft = Some(block["    vftable {\n".len()..].to_string());
                 block.push_str("    },\n");
                 fields.push_str(&block);
                 off = p;
                 max_align = max_align.max(p);
             } else if first_base_has_vftable {
                 has_vft = true;
+                my_vft = first_base_vft.clone();
+                // now and then the derived type spells the inherited table out (every base slot repeated, in place)
+                // and appends slots of its own
+                if let (Some(base_lines), true) = (&first_base_vft, r.chance(1, 2)) {
+                    let mut block = format!("    vftable {{\n{base_lines}");
+                    for v in 0..r.below(3) {
+                        block.push_str(&format!("        {}fn dv{counter}_{v}(&self, a: u16);\n", vis(&mut r)));
+                    }
+                    my_vft = Some(block["    vftable {\n".len()..].to_string());
+                    block.push_str("    },\n");
+                    fields.push_str(&block);
+                }
             }
             for (decl, s, a, _is_base) in &specs {
                 let a_eff = if packed { 1 } else { *a };
@@ -287,7 +304,7 @@ pub fn program(seed: u64, index: u64, ptr: usize) -> Vec<(&'static str, String)>
                 }
                 out.push_str("}\n");
             }
-            known.push(Known { module: m, name: name.clone(), size: off, align, is_struct: true, has_vftable: has_vft });
+            known.push(Known { module: m, name: name.clone(), size: off, align, is_struct: true, has_vftable: has_vft, vft_decl: my_vft });
         }
         bodies[m].push_str(&out);
         // extern value now and then
@@ -300,6 +317,9 @@ pub fn program(seed: u64, index: u64, ptr: usize) -> Vec<(&'static str, String)>
         let mut text = String::new();
         if r.chance(1, 4) { text.push_str("//! module docs\n//!\n"); }
         for u in &uses[i] { text.push_str(u); text.push('\n'); }
+        // now and then an import is repeated (by-name imports: the last one wins, so the repeated first line changes nothing
+        // only if no competing import of the same name follows it - repeat the LAST line, which never changes the binding)
+        if let (Some(last), true) = (uses[i].last(), r.chance(1, 6)) { if let Some(first) = uses[i].first() { if first != last || uses[i].len() == 1 { text.push_str(last); text.push('\n'); } } }
         if r.chance(1, 5) { text.push_str(&format!("backend rust prologue r#\"\n    const PRO_{i}: u32 = {i}; // c\n\"#;\nbackend other epilogue r#\"\n    const FOREIGN_{i}: u32 = 0;\n\"#;\n")); }
         if r.chance(1, 6) { text.push_str(&format!("backend rust {{\n    prologue r#\"const PRO2_{i}: u32 = 2; // second block\"#;\n    epilogue r#\"const EPI_{i}: u32 = 3;\n// end\"#;\n}}\nbackend rust epilogue r#\"\n    const EPI2_{i}: u32 = 4;\n\"#;\n")); }
         text.push_str(&bodies[i]);
